@@ -542,6 +542,29 @@ def _build(spec, variant=None):
         hi = np.array([spec['bounds'][i]['hi'] for i in range(off[bi], off[bi + 1])])
         styles = [spec['bounds'][i]['style'] for i in range(off[bi], off[bi + 1])]
         B.bound_constr = getattr(B, 'bound_constr', [])
+        uni = lambda v: bool(np.all(np.isfinite(v)) or not np.any(np.isfinite(v)))
+        if spec.get('perm_bounds') and len(lo) >= 2 and all(s == 'obj' for s in styles) and \
+                uni(lo) and uni(hi) and (np.all(np.isfinite(lo)) or np.all(np.isfinite(hi))):
+            # bound objects written on a reversed / permuted selection of the entries (scalar
+            # right-hand side when all entries share it): dual() must follow the order written
+            prng = np.random.default_rng(int(spec['perm_bounds']) + bi)
+            if prng.random() < 0.5:
+                order, sel = list(range(len(lo)))[::-1], x[::-1]
+            else:
+                order = [int(i_) for i_ in prng.permutation(len(lo))]
+                sel = x[order]
+            gidx = [int(off[bi] + o_) for o_ in order]
+            for kind_, v_ in (('L', lo), ('U', hi)):
+                if not np.all(np.isfinite(v_)):
+                    continue
+                rhs_ = float(v_[0]) if np.all(v_ == v_[0]) else arr(v_[order])
+                c_ = m.st(sel >= rhs_) if kind_ == 'L' else m.st(sel <= rhs_)
+                # a scalar right-hand side gives a bound object, an array a block of rows (which
+                # report their multipliers in the row convention)
+                if type(c_).__name__ != 'Bounds':
+                    kind_ = 'row' + kind_
+                B.bound_constr.append((kind_, gidx, c_))
+            continue
         if all(s == 'obj' for s in styles) and np.all(np.isfinite(lo)) and np.all(np.isfinite(hi)):
             if np.all(lo == lo[0]) and rng.random() < 0.5:
                 c1 = m.st(x >= float(lo[0]))
